@@ -31,6 +31,10 @@ type c09Cfg struct {
 	// kind), "root" (only the service's root pattern "" has a handler),
 	// "below-literal"/"below-param" (Kinds sit on a.b / $x.b, below a resource
 	// whose own handler only has the Upper kinds).
+	// Pre: "" | "reconfigured" (an explicit ownership is set first and then replaced by
+	// this configuration's, nil meaning default again) | "restart" (the service first runs
+	// with another explicit ownership, is stopped, reconfigured and served again)
+	Pre    string   `json:"pre,omitempty"`
 	Layout string   `json:"layout"`
 	Upper  []string `json:"upper,omitempty"`
 	reconnect bool
@@ -118,6 +122,7 @@ func c09RandCfg(r *rand.Rand, idx int) c09Cfg {
 		}
 	}
 	cfg.Queue = []string{"<default>", "<default>", "", "workers"}[r.Intn(4)]
+	cfg.Pre = []string{"", "", "", "reconfigured", "restart"}[r.Intn(5)]
 	return cfg
 }
 
@@ -199,7 +204,17 @@ func c09KindOption(k string) res.Option {
 }
 
 func c09Own(s *res.Service, cfg c09Cfg) {
-	if !cfg.ResNil || !cfg.AccNil {
+	if cfg.Pre != "" {
+		s.SetOwnedResources([]string{"pre.a", "pre.a.>"}, []string{"pre.b"})
+	}
+	if cfg.Pre == "restart" {
+		return // the final ownership is set between the two runs
+	}
+	c09OwnFinal(s, cfg)
+}
+
+func c09OwnFinal(s *res.Service, cfg c09Cfg) {
+	if !cfg.ResNil || !cfg.AccNil || cfg.Pre != "" {
 		var rs, as []string
 		if !cfg.ResNil {
 			rs = cfg.Resources
@@ -256,6 +271,9 @@ func c09CfgSig(cfg c09Cfg) string {
 	if cfg.Layout != "all" && cfg.Layout != "" {
 		own += "/" + cfg.Layout
 	}
+	if cfg.Pre != "" {
+		own += "/" + cfg.Pre
+	}
 	return name + "/" + own
 }
 
@@ -269,6 +287,13 @@ func c09Check(c *core.Ctx, cfg c09Cfg) {
 	rg := newRig(cfg.Name, func(s *res.Service) { c09Configure(s, cfg) })
 	rg.C.NoGoID = true
 	err := rg.start()
+	if cfg.Pre == "restart" && err == nil {
+		if err = rg.stop(); err == nil {
+			c09OwnFinal(rg.S, cfg)
+			err = rg.restart()
+			rg.C.NoGoID = true
+		}
+	}
 	sig := c09CfgSig(cfg)
 	desc := map[string]interface{}{"config": cfg, "expected_resources": wantRes, "expected_access": wantAcc}
 	subs := rg.C.Subs()
@@ -502,6 +527,9 @@ func c09Run(c *core.Ctx, b core.Batch) {
 		cfg := c09RandCfg(r, p.Shard*p.N+i)
 		cfg.Name = []string{"", "svc", "a.b"}[i%3]
 		cfg.reconnect = i%3 == 1 || i == 0
+		if cfg.Pre == "restart" {
+			cfg.Pre = "reconfigured" // the two-run scenario is only driven on the recording connection
+		}
 		c09Nats(c, ne, cfg)
 	}
 }
